@@ -378,7 +378,7 @@ func genIlv(r *rng.R, tier string, tries int) []script {
 	// (c) random topologies, scripts, schedules and expiry points; 4-5 replicas in some
 	nrand := 420
 	if tier == "thorough" {
-		nrand = 12000
+		nrand = 8000
 	}
 	for q := 0; q < nrand; q++ {
 		mkReps := func() []int {
@@ -446,7 +446,7 @@ func genRagged(r *rng.R, tier string, tries int) []script {
 	wide := [][]int{{2, 1}, {3, 1}, {3, 2}, {1, 3, 2}, {2, 3, 1}, {3, 3, 2}, {1, 2, 1}}
 	reps := 12
 	if tier == "thorough" {
-		reps = 150
+		reps = 100
 	}
 	for q := 0; q < reps; q++ {
 		for _, sh := range narrow {
